@@ -227,6 +227,8 @@ structure Skeleton where
   fill : List (Nat × String)
   /-- body of `team_size()`: the stride of the `tid` loops is the size of the team that executes the region -/
   teamSize : String
+  /-- body of `thread_id()`: the first virtual thread of a thread is its number in that team -/
+  threadId : String
   deriving DecidableEq, Repr
 
 def barrierLine : String := "#pragma omp barrier"
@@ -267,6 +269,7 @@ def expectedFill : List (Nat × String) :=
    (3, "t.end=loc_end;")]
 
 def expectedTeamSize : String := "#ifdef _OPENMP return omp_get_num_threads();#else return 1;#endif"
+def expectedThreadId : String := "#ifdef _OPENMP return omp_get_thread_num();#else return 0;#endif"
 
 def expectedRun (store : String) : List (Nat × String) :=
   [(0, "const ptrdiff_t nlev=tasks.empty()?0:tasks[0].size();"),
@@ -286,6 +289,7 @@ def gsExpectedSkeleton : Skeleton where
   chunking := expectedChunking
   fill := expectedFill
   teamSize := expectedTeamSize
+  threadId := expectedThreadId
 
 def iluExpectedSkeleton : Skeleton where
   run := expectedRun "if(lower)x[i]-=X;else x[i]=D[tid][r]*(x[i]-X);"
@@ -294,6 +298,7 @@ def iluExpectedSkeleton : Skeleton where
   chunking := expectedChunking
   fill := expectedFill
   teamSize := expectedTeamSize
+  threadId := expectedThreadId
 
 /-- with the barrier: one interleaving per level, the levels one after the other -/
 inductive LevelwiseExec (tk : List (List (List Nat))) : List Nat → List Nat → Prop
